@@ -33,6 +33,9 @@ CHECKS = {
     "C10": ("explicit left-to-right semiring fold (numpy) as reference model for every Markov-product entry point; brute-force unrolling and naive counterpart for lagged models",
             "Random transitions over all durations 1..12, state pairs, batch inputs, input orders and semirings are run through sequential/naive/mixed (every num_segments) products, MarkovProduct eager, lazy+reinterpret and renamed, with optional real parameter; lagged models through sarkka_bilmes_product with several period counts, against the naive variant and an unrolled fold. Exploration.",
             "trusted: numpy/scipy semiring fold in fv/checks/c10.py", "DESIGN.md §6 C10"),
+    "C11": ("product-rule derivative on the IR as reference for every leaf adjoint; forward value vs reference evaluator; mechanism model of the tape's aggregation to key known findings",
+            "Sum-product programs with 1-5 leaves (renamed, sliced, concatenated, index-substituted, used twice) are built under reflect and differentiated by forward_backward directly and after apply_optimizer, for (add,mul) and (logaddexp,add); the forward value must equal the reference and, for fully reduced roots, every leaf's adjoint must equal the brute-force semiring derivative at every index. Exploration.",
+            "trusted: fv/refsem.py and the derivative recursion in fv/checks/c11.py; roots with free inputs only contribute the forward check (the statement does not fix which root inputs index the adjoint)", "DESIGN.md §6 C11"),
     "C12": ("dense quadratic-form reference model composed through closures; structural read-out and funsor binding of results at random points",
             "Gaussians of every parametrisation, rank class and input interleaving are pushed through random compositions (depth<=3) of the supported pointwise operations and compared with -1/2 x'Px + x'eta + c computed from the generator's parameters. Exploration.",
             "trusted: fv/dense.py, numpy.linalg; rtol 1e-5 on well-conditioned factors", "DESIGN.md §6 C12"),
